@@ -248,6 +248,22 @@ class Interp:
                     return True
                 raise Undecided("arity of %s" % render_pat(p))
             return all(self.match_pat(s, a, env) for s, a in zip(p["subs"], v.args))
+        if k == "PSlice":
+            # [a, b, ..] / [first, .., last] / [] against a list
+            if isinstance(v, ListIter):
+                v = v.items[v.pos:]
+            if not isinstance(v, list):
+                raise Undecided("slice pattern against %r" % (v,))
+            before, after = p.get("before", []), p.get("after", [])
+            if "rest" in p:
+                if len(v) < len(before) + len(after):
+                    return False
+                if not self.match_pat(p["rest"], v[len(before):len(v) - len(after)], env):
+                    return False
+            elif len(v) != len(before) + len(after):
+                return False
+            return all(self.match_pat(s_, x_, env) for s_, x_ in zip(before, v)) and \
+                all(self.match_pat(s_, x_, env) for s_, x_ in zip(after, v[len(v) - len(after):] if after else []))
         if k == "PTup":
             if not isinstance(v, tuple) or isinstance(v, V) or len(v) != len(p["subs"]):
                 raise Undecided("tuple pattern against %r" % (v,))
@@ -683,6 +699,25 @@ class Interp:
                 return r[0]
         m = n["m"]
         recv = self.ev(n["recv"], env)
+        if isinstance(recv, (LocalRef, ElemRef)):
+            # a method called through `&mut` to a plain value: `retain` / `push` / `clear` on a text rewrite the place; every other
+            # method reads the value (auto-deref)
+            cur = recv.get()
+            if isinstance(cur, str) and m == "retain" and len(n["args"]) == 1:
+                f_ = self.ev(n["args"][0], env)
+                recv.lst[recv.idx] = "".join(ch for ch in cur if self._bool(self.apply(f_, [ch]), n))
+                return ()
+            if isinstance(cur, str) and m in ("push", "push_str") and len(n["args"]) == 1:
+                a_ = self.ev(n["args"][0], env)
+                if isinstance(a_, str):
+                    recv.lst[recv.idx] = cur + a_
+                    return ()
+            if isinstance(cur, str) and m == "clear" and not n["args"]:
+                recv.lst[recv.idx] = ""
+                return ()
+            recv = cur
+        if m in ("start", "end") and not n["args"] and isinstance(recv, tuple) and recv and recv[0] == "range":
+            return recv[1] if m == "start" else recv[2]
         if m in ("clone", "as_ref", "as_mut", "as_deref", "to_owned", "borrow", "deref", "by_ref", "copied", "cloned", "into") and not n["args"]:
             return recv
         if isinstance(recv, tuple) and not isinstance(recv, V) and recv[:1] != ("range",) and "Vec<" in str(n["recv"].get("ty", "")) + str(n.get("callee", "")):
@@ -991,6 +1026,8 @@ class Interp:
                         "is_nan": lambda: recv != recv, "is_finite": lambda: math.isfinite(recv)}[m]()
             except (ValueError, OverflowError):
                 raise Undecided("float method %s on %r" % (m, recv))
+        if isinstance(recv, int) and not isinstance(recv, bool) and not n["args"] and m in ("abs", "saturating_abs", "unsigned_abs", "wrapping_abs", "signum", "is_negative", "is_positive"):
+            return {"signum": (recv > 0) - (recv < 0), "is_negative": recv < 0, "is_positive": recv > 0}.get(m, abs(recv))
         if isinstance(recv, int) and not isinstance(recv, bool) and len(n["args"]) == 1 and m in ("min", "max", "pow", "abs_diff"):
             a = self.ev(n["args"][0], env)
             if isinstance(a, int) and not isinstance(a, bool):
@@ -1282,6 +1319,8 @@ class Interp:
             items = recv if isinstance(recv, list) else recv.items[recv.pos:]
             if m == "iter_mut" and isinstance(recv, list) and recv and all(isinstance(x, (bool, int, float, str)) or isinstance(x, V) for x in recv):
                 return [ElemRef(recv, i) for i in range(len(recv))]        # `&mut` to each plain element: writes reach the list
+            if m in ("as_slice", "as_mut_slice", "to_vec", "as_ref") and isinstance(recv, list):
+                return recv
             if m in ("iter", "into_iter", "iter_mut", "by_ref", "cloned", "copied"):
                 return list(items)
             if m == "enumerate":
@@ -1421,6 +1460,10 @@ class Interp:
                 return a
             if short(n.get("callee", ""), 2) == "From::from" and "Box<" in str(n.get("ty", "")) and not isinstance(a, Opaque):
                 return a        # Box::from(x): the box is its content
+        if str(n.get("callee", "")).endswith(("iter::once", "once::once", "sources::once::once")) and len(n["args"]) == 1:
+            return [self.ev(n["args"][0], env)]
+        if str(n.get("callee", "")).endswith(("iter::empty", "empty::empty")) and not n["args"]:
+            return []
         if str(n.get("callee", "")).endswith(("mem::drop", "mem::forget")) and len(n["args"]) == 1:
             self.ev(n["args"][0], env)
             return ()
